@@ -97,12 +97,13 @@ def state_options(n, s, action_sets, dists, rewards):
 
 
 def enum_mdps(n, action_sets, dist_level, rewards, absorbing_sets, inits, gammas,
-              nonpositive_when_undiscounted=True):
-    """Cartesian enumeration, simplest first.  Yields MDP items."""
+              nonpositive_when_undiscounted=True, per_state_action_sets=None):
+    """Cartesian enumeration, simplest first.  Yields MDP items.  per_state_action_sets (optional) gives each
+    state its own menu of action sets."""
     dists = dist_menu(n, dist_level)
     for gamma in gammas:
         rs = [r for r in rewards if r <= 0] if (gamma == 1 and nonpositive_when_undiscounted) else rewards
-        opts = [state_options(n, s, action_sets, dists, rs) for s in range(n)]
+        opts = [state_options(n, s, per_state_action_sets[s] if per_state_action_sets else action_sets, dists, rs) for s in range(n)]
         for T in product(*opts):
             for ab in absorbing_sets:
                 for init in inits:
@@ -252,3 +253,20 @@ def with_ns_rewards(item):
             new.append((a, dist, rew))
         T2.append(tuple(new))
     return (tag, n, tuple(T2), ab, init, g)
+
+
+def thorough_mdps(gammas=(F(1, 2), F(9, 10), F(1)), nonpositive_when_undiscounted=True):
+    """The larger MDP family shared by the thorough tiers of C01 / C02 / C06 / C16 (about 6*10^5 specs)."""
+    AS = [('a',), ('b',), ('a', 'b')]
+    kw = dict(nonpositive_when_undiscounted=nonpositive_when_undiscounted)
+    yield from enum_mdps(2, AS, 1, [F(-2), F(-1), F(0), F(1)], [(), (1,)], INIT_MENU[2][:2], list(gammas), **kw)
+    yield from enum_mdps(2, AS, 1, [F(-1), F(1)], [(0,), (0, 1)], INIT_MENU[2][2:], [g for g in gammas if g != F(1, 2)], **kw)
+    yield from enum_mdps(2, [('a', 'b')], 2, [F(-1), F(0)], [()], [INIT_MENU[2][0]], [g for g in gammas if g != F(1, 2)], **kw)
+    g2 = [g for g in gammas if g != F(1, 2)]
+    yield from enum_mdps(3, [('a',)], 1, [F(-1), F(0), F(1)], [(), (2,)], [INIT_MENU[3][0]], g2, **kw)
+    yield from enum_mdps(3, None, 1, [F(-1), F(0)], [(), (2,)], [INIT_MENU[3][0]], g2,
+                         per_state_action_sets=[[('a', 'b')], [('a',)], [('a',)]], **kw)
+    yield from enum_mdps(3, None, 1, [F(-1), F(0)], [(2,)], [INIT_MENU[3][1]], g2,
+                         per_state_action_sets=[[('a',)], [('a', 'b')], [('b',)]], **kw)
+    yield from chain_mdps(3, list(gammas), [F(-1), F(0), F(1)])
+    yield from (it for i, it in enumerate(chain_mdps(4, g2, [F(-1), F(0)])) if i % 2 == 0)
